@@ -199,6 +199,22 @@ def run_case(cs, seed):
             pass
         elif g.shape != np.shape(exp) or ok_inv is False or not np.allclose(g, exp, rtol=1e-11, atol=1e-12, equal_nan=True):
             out.append((f"values/{key}", f"{desc} does not equal the operation carried out at each (e, p) independently (max diff {np.abs(g - exp).max() if g.shape == np.shape(exp) else 'shape'})"))
+            continue
+        if op in ("det", "trace", "inv", "transpose", "T") and a["fe"] and len(a["shape"]) >= 4:
+            # FeShapes.tla, ScaleDegree: these operations are homogeneous in their operand (degree -1, n, 1, 1, 1) at EVERY magnitude -
+            # a field of compliances in 1/Pa (entries of order 1e-12 and below) is inverted point by point like any other
+            S = 1e-14
+            n_ = a["shape"][-1]
+            deg = {"det": n_, "trace": 1, "inv": -1, "transpose": 1, "T": 1}[op]
+            try:
+                with np.errstate(all="ignore"):
+                    As = FeArray.asfearray(A * S)
+                    gs_ = np.asarray({"det": Det, "trace": Trace, "inv": Inv, "transpose": Transpose, "T": (lambda x: x.T)}[op](As), dtype=float)
+                exps = exp * S**deg
+                if gs_.shape != exps.shape or not np.all(np.abs(gs_ - exps) <= 1e-8 * np.abs(exps).max()):
+                    out.append((f"values-small/{key}", f"{desc} on the operand multiplied by {S:g} is not the result multiplied by {S:g}^{deg} (max relative difference {np.abs(gs_ - exps).max() / np.abs(exps).max() if gs_.shape == exps.shape else 'shape'})"))
+            except Exception as ex:  # noqa: BLE001
+                out.append((f"raises-small/{key}", f"{desc} on the operand multiplied by {S:g} raises {type(ex).__name__}: {ex}"))
     return out
 
 
